@@ -96,9 +96,33 @@ Proof. unfold memb. apply existsb_app. Qed.
 Lemma wake_of_set_wake s lv w : wake_of (set_wake s lv w) lv = w.
 Proof. unfold wake_of, set_wake. cbn [s_wake]. apply get_d_upd_same. Qed.
 
+Lemma filter_upd_keep {A} (g : positive -> bool) k (v : A) l :
+  g k = true ->
+  filter (fun e : positive * A => g (fst e)) (upd k v l) = upd k v (filter (fun e : positive * A => g (fst e)) l).
+Proof.
+  intros Hk. induction l as [|[k' v'] r IH]; cbn [upd filter fst].
+  - rewrite Hk. reflexivity.
+  - destruct (Pos.eqb_spec k k') as [E|Hne].
+    + subst k'. cbn [filter fst]. rewrite Hk. cbn [upd]. rewrite Pos.eqb_refl. reflexivity.
+    + cbn [filter fst]. destruct (g k') eqn:Ek'.
+      * cbn [upd]. destruct (Pos.eqb_spec k k'); [contradiction|]. rewrite IH. reflexivity.
+      * exact IH.
+Qed.
+
+Lemma filter_upd_drop {A} (g : positive -> bool) k (v : A) l :
+  g k = false ->
+  filter (fun e : positive * A => g (fst e)) (upd k v l) = filter (fun e : positive * A => g (fst e)) l.
+Proof.
+  intros Hk. induction l as [|[k' v'] r IH]; cbn [upd filter fst].
+  - rewrite Hk. reflexivity.
+  - destruct (Pos.eqb_spec k k') as [E|Hne].
+    + subst k'. cbn [filter fst]. rewrite Hk. reflexivity.
+    + cbn [filter fst]. rewrite IH. reflexivity.
+Qed.
+
 Section NI.
 Variable devf : devfun.
-Variable inner : positive -> Z -> values -> sstate -> sstate * values * option Z * list obs.
+Variable inner inner' : positive -> Z -> values -> sstate -> sstate * values * option Z * list obs.
 Variable isX : comp -> bool.          (* the added, disconnected part *)
 Variable lv : positive.
 Variable conns' : list conn.          (* wires of the extended level *)
@@ -117,7 +141,7 @@ Definition notX (o : obs) : bool := negb (isX (obs_comp o)).
 Definition srel (s s' : sstate) : Prop :=
   (forall c, isX c = false -> lookup c (s_dc s') = lookup c (s_dc s)) /\
   (forall c, isX c = false -> lookup c (s_n s') = lookup c (s_n s)) /\
-  (forall c, isX c = false -> lookup c (wake_of s' lv) = lookup c (wake_of s lv)).
+  filter (fun e : comp * Z => negb (isX (fst e))) (wake_of s' lv) = wake_of s lv.
 
 Definition arel (a a' : tacc) : Prop :=
   srel (ta_s a) (ta_s a') /\
@@ -156,7 +180,7 @@ Proof. intros H c0 Hc0. rewrite !memb_app, (H c0 Hc0). reflexivity. Qed.
 
 Lemma step_old a a' c : isX c = false -> arel a a' ->
   arel (tick_step devf inner lv cs0 time roots ext a (c, KDev))
-       (tick_step devf inner lv conns' time roots' ext a' (c, KDev)).
+       (tick_step devf inner' lv conns' time roots' ext a' (c, KDev)).
 Proof.
   intros Hc Hrel. unfold tick_step. cbn [fst snd].
   rewrite (extent_old a a' c Hc Hrel).
@@ -197,13 +221,14 @@ Proof.
           - cbn [ta_obs]. rewrite filter_app, Hob. cbn [filter]. unfold notX at 1. unfold obs_comp. cbn [fst]. rewrite Hc. reflexivity. }
         destruct ca as [w|]; [|apply Hrest; exact Hs1].
         apply Hrest. destruct Hs1 as [H1 [H2 H3]]. split; [exact H1|]. split; [exact H2|].
-        intros c0 Hc0. rewrite !wake_of_set_wake, !lookup_upd. destruct (Pos.eqb c0 c); [reflexivity | apply H3; exact Hc0].
+        rewrite !wake_of_set_wake. rewrite (filter_upd_keep (fun k => negb (isX k))) by (rewrite Hc; reflexivity).
+        f_equal. exact H3.
   - split; [exact Hs|]. split; [exact Hin|]. split; [apply touched_rel; exact Ht|]. split; [exact Ho | exact Hob].
 Qed.
 
 (* a component of the added part: whatever it does, the relation is kept *)
 Lemma step_new a a' c : isX c = true -> arel a a' ->
-  arel a (tick_step devf inner lv conns' time roots' ext a' (c, KDev)).
+  arel a (tick_step devf inner' lv conns' time roots' ext a' (c, KDev)).
 Proof.
   intros Hc Hrel. unfold tick_step. cbn [fst snd].
   destruct (in_extent conns' roots' (ta_touched a') c); [|exact Hrel].
@@ -239,7 +264,7 @@ Proof.
         cbn [negb]. apply app_nil_r. }
     destruct ca as [w|]; [|apply Hrest; exact Hs1].
     apply Hrest. destruct Hs1 as [H1 [H2 H3]]. split; [exact H1|]. split; [exact H2|].
-    intros c0 Hc0. rewrite wake_of_set_wake, lookup_upd_other by (apply Hne; exact Hc0). apply H3; exact Hc0.
+    rewrite wake_of_set_wake. rewrite (filter_upd_drop (fun k => negb (isX k))) by (rewrite Hc; reflexivity). exact H3.
   - split; [exact Hs|]. split; [exact Hin|]. split; [exact Htn|]. split; [exact Ho | exact Hob].
 Qed.
 
@@ -247,7 +272,7 @@ Qed.
 Lemma fold_rel order' : (forall ck, In ck order' -> snd ck = KDev) ->
   forall a a', arel a a' ->
   arel (fold_left (tick_step devf inner lv cs0 time roots ext) (filter (fun ck : comp * ckind => negb (isX (fst ck))) order') a)
-       (fold_left (tick_step devf inner lv conns' time roots' ext) order' a').
+       (fold_left (tick_step devf inner' lv conns' time roots' ext) order' a').
 Proof.
   induction order' as [|[c k] r IH]; intros Hk a a' Hrel; [exact Hrel|].
   assert (Ek : k = KDev) by (apply (Hk (c, k)); left; reflexivity). subst k.
@@ -258,7 +283,7 @@ Qed.
 End NI.
 
 (* one whole tick of a flat level and of the level extended by a disconnected part *)
-Theorem tick_noninterference cfg cfg' devf inner (isX : comp -> bool) lv time roots roots' ext s s' :
+Theorem tick_noninterference cfg cfg' devf inner inner' (isX : comp -> bool) lv time roots roots' ext s s' :
   let l := level_of cfg lv in
   let l' := level_of cfg' lv in
   l_order l = filter (fun ck : comp * ckind => negb (isX (fst ck))) (l_order l') ->
@@ -269,7 +294,7 @@ Theorem tick_noninterference cfg cfg' devf inner (isX : comp -> bool) lv time ro
   (forall c, isX c = false -> memb c roots' = memb c roots) ->
   srel isX lv s s' ->
   let '(s1, out, ob) := tick_with cfg devf inner lv time roots ext s in
-  let '(s1', out', ob') := tick_with cfg' devf inner lv time roots' ext s' in
+  let '(s1', out', ob') := tick_with cfg' devf inner' lv time roots' ext s' in
   srel isX lv s1 s1' /\ out' = out /\ filter (notX isX) ob' = ob.
 Proof.
   intros l l' Hord Hcon Hk Hsep Hext Hexp Hroots Hs. unfold tick_with. fold l. fold l'.
@@ -280,7 +305,7 @@ Proof.
   assert (Hk' : forall ck, In ck (all_of l') -> snd ck = KDev).
   { unfold all_of. intros ck [E|Hi]; [subst ck; reflexivity|]. apply in_app_iff in Hi.
     destruct Hi as [Hi|[E|[]]]; [apply Hk; exact Hi | subst ck; reflexivity]. }
-  pose proof (fold_rel devf inner isX lv (l_conns l') Hsep Hext Hexp time roots roots' Hroots ext (all_of l') Hk'
+  pose proof (fold_rel devf inner inner' isX lv (l_conns l') Hsep Hext Hexp time roots roots' Hroots ext (all_of l') Hk'
                 {| ta_s := s; ta_in := []; ta_touched := []; ta_out := []; ta_obs := [] |}
                 {| ta_s := s'; ta_in := []; ta_touched := []; ta_out := []; ta_obs := [] |}) as H.
   unfold cs0 in H.
